@@ -19,7 +19,7 @@ from . import _idx
 ID = "C08"
 LEVEL = "exploration"
 RUNS = {"quick": 200, "thorough": 8000}
-WALL_CAP = {"quick": 280, "thorough": 3000}
+WALL_CAP = {"quick": 280, "thorough": 1500}
 EVALS_FROM_STATS = True
 RULE = (
     "case = seeded valid world + db create, then (i) 6-10 damaged variants of its pages (truncate at "
